@@ -39,6 +39,22 @@ def environments(ctx):
                     continue
                 if abs(mm - a.properties['molar_mass']) > 1e-2 * mm:
                     cases.append((a.name, 0.5 * (a.t_triple() + a.t_critical())))
+        # ... and those whose STORED critical / triple temperature disagrees with the backend: a temperature inside the band between
+        # the two is sub-critical (above the triple point) for the backend, which is what decides whether a saturation state exists
+        import CoolProp.CoolProp as CPP
+        for a in pygaps.ADSORBATE_LIST:
+            b = a.properties.get('backend_name')
+            if not b:
+                continue
+            try:
+                tc, tt = CPP.PropsSI('Tcrit', b), CPP.PropsSI('Ttriple', b)
+            except Exception:
+                continue
+            st, s3 = a.properties.get('t_critical'), a.properties.get('t_triple')
+            if st is not None and tc - st > 0.3:
+                cases.append((a.name, 0.5 * (st + tc)))
+            if s3 is not None and s3 - tt > 0.3 and s3 < tc:
+                cases.append((a.name, 0.5 * (s3 + tt)))
     else:
         cases = []
         for a in pygaps.ADSORBATE_LIST:
